@@ -164,6 +164,12 @@ def spawn_sub():
     return {"pkg": "c05spawn", "sub": "spawn", "coq": False, "kinds": ["C05:late-spawn:"]}
 
 
+def twin_sub():
+    # two linked nodes: a termination notice from the OTHER node naming an address that a living local child also has
+    # (harness of C06's two-node sub-check, scripts with a twin child only; monitors only)
+    return {"pkg": "c06remote", "sub": "remote", "coq": False, "kinds": ["C05:remote-notice:"], "args": ["-twin", "-n", "250"]}
+
+
 T3_NAMES = ["C05_late_spawn_source_facts", "C05_late_spawn_of_this_source"]
 HOISTED = ["ARead", "AReg", "AEnter", "ALaunch", "ADecide false true"]          # MV.C05.SpawnModel.hoisted_order
 SOURCE = ["AReg", "AEnter", "ALaunch", "ARead", "ADecide false true"]           # MV.C05.SpawnModel.source_order
@@ -277,7 +283,7 @@ def check(ctx):
     vlib.standard_check = _standard_check
     try:
         return K.check(ctx, "C05", ["C05:", "kernel:"], "DESIGN.md §6 C05; docs/C05-ADDR-NOTES.md",
-                       extra_subs=[addr_sub(), spawn_sub()], extra_trusted=TRUSTED_ADDR + TRUSTED_SPAWN)
+                       extra_subs=[addr_sub(), spawn_sub(), twin_sub()], extra_trusted=TRUSTED_ADDR + TRUSTED_SPAWN)
     finally:
         vlib.default_search = _orig_default_search
         vlib.standard_check = _orig_standard_check
@@ -285,4 +291,4 @@ def check(ctx):
 
 def replay(ctx, path):
     vlib.go_build = _go_build
-    return K.replay(ctx, path, extra_pkgs={"addr": "c05addr", "spawn": "c05spawn"})
+    return K.replay(ctx, path, extra_pkgs={"addr": "c05addr", "spawn": "c05spawn", "remote": "c06remote"})
